@@ -15,9 +15,9 @@ spec.loader.exec_module(m)
 MODEL = {
     "C01": "Gen/Opcodes, Model/Pattern (init(): template expansion, stub inference, field layout), Model/Insn (operand classes, encodeRM/Reg/Acc/Offset/Imm, getOpcode, compileInsn), Spec/Isa (independent ISA table and decoder)",
     "C02": "Gen/Meta (announced sizes), Model/Directive, Model/Asm (whole program), hook trace of compile_block",
-    "C03": "Model/Scope (lookup/define), Model/Defs (total lazy evaluator), Model/Ops, Model/Poly, Model/Asm",
+    "C03": "Model/Scope (lookup/define), Model/Defs (total lazy evaluator), Model/Ops, Model/Poly, Model/Thunk (memoised Deferred), Model/Asm",
     "C04": "Model/Insn.offsetField / relWord, Spec/Ea (handbook effective-address rules)",
-    "C05": "Model/Ops (operator functions on Int), Model/Parse + Model/Eval (transliterated parser/evaluator), Spec/Arith (independent evaluator), Gen/Operators",
+    "C05": "Model/Ops (operator functions on Int), Model/Shunt and Model/ShuntP (the operator-precedence loop, with leading prefix operators), Model/Parse + Model/Eval (transliterated parser/evaluator), Spec/Arith (independent evaluator), Gen/Operators",
     "C06": "Model/Insn.getAsInt, Model/Directive (every data directive), Gen/Codecs",
     "C07": "Model/State (report latch), Model/Cli (main_cli control flow), Gen/Reports",
     "C08": "Model/Insn, Model/Directive, Model/Defs, Model/State (Loud invariant over the error-log monad)",
@@ -25,10 +25,10 @@ MODEL = {
     "C10": "Model/Parse (intOf, digitVal, lowerS, table lookups), Model/Insn (regNum, encodeRM), Model/Directive (wordList/wordDir)",
     "C11": "Model/Scope (qualified names, lookup, define, resolve), Model/Asm",
     "C12": "Model/Link (decideBase, setLink, skipBytes) on Model/Lin, Model/Poly (deferred.LinearPolynomial), Model/Asm",
-    "C13": "Model/Container (raw, bin, WAV), Gen/Wav (pulse shapes), Spec/Tape (RIFF reader, demodulators, end-around-carry sum)",
+    "C13": "Model/Container (raw, bin, WAV, tape-name inference), Gen/Wav (pulse shapes), Spec/Tape (RIFF reader, demodulators, end-around-carry sum)",
     "C14": "Gen/BkTable, Model/Bk, Spec/Koi8r",
     "C15": "Gen/Rad50, Model/Rad50, Spec/Rad50",
-    "C16": "Model/Layout (statements as functions of their address; emitBlock, repeatEmit, linkFiles, .end, .once), Model/Directive.byteDir, Model/Asm",
+    "C16": "Model/Path (resolve_relative_path), Model/Layout (statements as functions of their address; emitBlock, repeatEmit, linkFiles, .end, .once), Model/Directive.byteDir, Model/Asm",
     "C17": "Model/LineCol (Context.__repr__), Spec/Scan (left-to-right scanner)",
     "C18": "Model/State (try_compute, Awaiting, handle_reports as a language of bracketed computations)",
     "C19": "Model/Listing (generate_listing, --lst path)",
